@@ -41,7 +41,7 @@ TEXT = {
                 text="Random class grammar (ranges, negation, nested subtraction, shorthands, \\p{..}, POSIX names) x {IgnoreCase, ECMAScript, RE2} x bitmap on/off x rune domain exhaustive over U+0000-U+024F plus endpoints, boundaries and samples (thorough: all 1,114,112 code points through the parsed set): CharIn of the parsed set, MatchRunes of \\A[..]\\z, [..]+ and x*[..], and the first match of [..]*! / [..]?m on r+follower (the class as a leading nullable loop whose first-char set is merged with the follower's) must equal the oracle.",
                 note="Category/script tables are Go's (shared trusted base). IgnoreCase domain restricted exactly as the property states.", ref="§6 C16"),
     "C18": dict(technique="property-based testing (rapid): metamorphic - three spellings of an option set (compile option, leading (?O), wrapping (?O:...)) and scoped vs switch-style groups agree",
-                text="F-core ASTs with nested on/off option groups and corpus patterns x all 32 subsets of {i,m,s,n,x} x inputs x every offset: the three spellings give equal matches, captures, group numbers and names; (?o:X) agrees with (?:(?o)X). Non-trivial cases are those where O actually changes the result (measured against O = {}).",
+                text="F-core ASTs with nested on/off option groups and corpus patterns x all 32 subsets of {i,m,s,n,x} x inputs x every offset: the three spellings give equal matches and captures, equal MatchString / FindAllRunesIndex results, group numbers and names; (?o:X) agrees with (?:(?o)X). Non-trivial cases are those where O actually changes the result (measured against O = {}).",
                 note="Pattern text is x-safe; insignificant blanks/comments are present exactly where x is in effect. Option groups directly inside an expression conditional are rejected by the parser (inherited .NET restriction) and are outside the domain.", ref="§6 C18"),
     "C19": dict(technique="property-based testing (rapid) + native go fuzzing: round-trip Unescape(Escape(s)) == s and literal-match predicate with one-edit mutants",
                 text="Strings over all of Unicode (weighted to metacharacters, whitespace, controls, non-printable and unassigned code points below and above U+FFFF) x option subsets that keep literal meaning: round trip, \\A(?:Escape(s))\\z compiles, matches s and rejects up to 8 one-edit mutants.",
@@ -59,10 +59,10 @@ TEXT = {
                 text="Deep-nesting ASTs, chains of 3-14 single-character loops (left-to-right, RightToLeft, inside lookbehinds) and corpus patterns x inputs up to 60 runes x ~18 limits per case (0..200 dense, 256, 1000, 100000, -1): equality with the unlimited result or the limit error, no panic, allocated backtracking stack <= L for pooled and private interpreter states, monotonicity, and the Regexp answers a probe like a fresh one after every call.",
                 note="Capacity is read through verif-tagged accessors (VerifScanStats, VerifPooledTrackCap).", ref="§6 C13"),
     "C14": dict(technique="property-based testing (rapid) over generated histories in virtual time (testing/synctest bubble: the harness owns the clock) + a small wall-clock leg",
-                text="Histories (calls with one timeout value share one Regexp, so pooled interpreter states are reused) of timed long / quick matches, idle gaps around the clock's lifetime, StopTimeoutClock and concurrent deadlines run against the unmodified clock code on a fake clock: timeout fires in [d-2ms, d+4ms], quick matches never time out and return at their work time, the clock goroutine is gone 1 s + 5 ms after the last deadline and after StopTimeoutClock, and restarts on demand. A wall-clock leg runs real catastrophic patterns through the real interpreter with lenient bounds, a scheduling-stall canary and 3-in-a-row confirmation.",
+                text="Histories (calls with one timeout value share one Regexp, so pooled interpreter states are reused) of timed long / quick matches, idle gaps around the clock's lifetime, StopTimeoutClock and concurrent deadlines run against the unmodified clock code on a fake clock: timeout fires in [d-2ms, d+4ms], quick matches never time out and return at their work time, the clock goroutine is gone 1 s + 5 ms after the last deadline and after StopTimeoutClock, and restarts on demand. A wall-clock leg runs real catastrophic patterns and a forward-only long match through the real interpreter with lenient bounds, a scheduling-stall canary and 3-in-a-row confirmation.",
                 note="The virtual leg replaces the interpreter by a registered engine that polls CheckTimeout every 50 virtual microseconds; polling density of the real interpreter is only covered by the wall-clock leg. Liveness is checked as bounded-time safety.", ref="§6 C14"),
     "C12": dict(technique="property-based testing (rapid state machine, t.Repeat): every call in a generated history vs the same call on a freshly compiled Regexp",
-                text="Histories of ~30 actions over 4 shared Regexps (balancing, bool-only program, backreference, stack limit 64, timeout, RightToLeft, replacement cache of 2, ...) x 13 entry points x inputs that match / fail / hit the limit / time out and cross the pooled-buffer size classes (1K/4K/16K runes) x 18 replacements: each outcome (canonical result or error class) equals the outcome on a fresh Regexp; probe calls re-check every shared Regexp.",
+                text="Histories of ~30 actions over 4 shared Regexps (balancing, bool-only program, backreference, stack limit 64, timeout, RightToLeft, replacement cache of 2, ...) x 13 entry points x inputs that match / fail / hit the limit / time out and cross the pooled-buffer size classes (1K/4K/16K runes) x 18 replacements: each outcome (canonical result or error class) equals the outcome on a fresh Regexp; probe calls re-check every shared Regexp; a burst action overflows the parsed-replacement cache and re-uses its newest entries.",
                 note="Timeout-involving outcomes are confirmed three times before being reported. Failing histories are replayed from fresh shared Regexps.", ref="§6 C12"),
     "C11": dict(technique="property-based testing (rapid) of generated concurrent workloads under the race detector: concurrent results == precomputed sequential results",
                 text="Generated workloads (3-6 shared Regexps, 150-2000 calls over 13 entry points incl. timed and stack-limited calls, more distinct replacements than the cache holds, inputs crossing pooled-buffer classes) x G in {2,4,8,32} goroutines x GOMAXPROCS in {1,2,4,16} x generated yield points; every concurrent result equals the sequential result on a fresh Regexp; built with -race, any race report fails the run (the workload that was running is saved as the replay).",
